@@ -7,12 +7,15 @@ from .common import setup, run_kernels
 from .c02 import field_contracts
 
 
-def bytes_battery(seed):
+def bytes_battery(seed, extra=()):
     import random
     from sym import native
     rng = random.Random(seed)
     pts = ptreplay.bank(rng, 14)
     ops, meta = [], []
+    for raw, q in extra:
+        ops.append({"op": "P.Bytes", "args": ["p"], "init": {"p": raw}})
+        meta.append(q)
     for p in pts:
         for _ in range(3):
             ops.append({"op": "P.Bytes", "args": ["p"], "init": {"p": ptreplay.mk_point(p, rng)}})
@@ -118,7 +121,7 @@ def run(chk):
     l1 = L1m.L1(base, chk)
     items += [("Point.Bytes", lambda: k_bytes(l1))]
     run_kernels(chk, items)
-    L1m.settle(chk, [o for o in chk.obs if o.name.startswith("Point.Bytes")], lambda: bytes_battery(chk.seed), "Point.Bytes")
+    L1m.settle(chk, [o for o in chk.obs if o.name.startswith("Point.Bytes")], lambda: bytes_battery(chk.seed, L1m.witness_points(chk, base, "Point.Bytes")), "Point.Bytes")
     chk.samples = [o.j() for o in chk.obs if o.name.startswith("Point.Bytes")][:5]
 
 
